@@ -33,7 +33,7 @@ let run_reference (s : scn) = reference_epochs s.seal s.pol s.vals (n_of_tok "1"
 
 (* reference output -> tokens in the harness' format *)
 let event_tokens res : string list =
-  List.concat (List.map (fun ((rs, _), _) -> List.map (fun (code, high) -> "b" ^ tok_of_n high ^ ":p" ^ tok_of_n code) rs) res)
+  List.concat (List.map (fun ((rs, _), _) -> List.map (fun (code, high) -> if tok_of_n code = "7" then "skip" else "b" ^ tok_of_n high ^ ":p" ^ tok_of_n code) rs) res)
 
 (* events of epochs that the reference never opened (previous epoch not sealed) *)
 let unopened (s : scn) res : int =
@@ -54,4 +54,4 @@ let block_tokens res : string list =
   toks @ ["L"; string_of_int (1 + !sealed_n); !last]
 
 let any_block res = List.exists (fun ((_, bs), _) -> bs <> []) res
-let all_codes_zero res = List.for_all (fun ((rs, _), _) -> List.for_all (fun (c, _) -> tok_of_n c = "0") rs) res
+let all_codes_zero res = List.for_all (fun ((rs, _), _) -> List.for_all (fun (c, _) -> tok_of_n c = "0" || tok_of_n c = "7") rs) res
